@@ -125,7 +125,23 @@ func (x *Exec) pureCallValue(fr *Frame, st *State, fn *ssa.Function, fc *FuncCon
 		req = append(req, env.evalBool(r.Expr))
 	}
 	env.goal = false
+	ghost := map[string]bool{"where": true}
+	for _, g := range fc.GhostVars {
+		ghost[g.Name] = true
+	}
 	for _, en := range fc.Ensures {
+		// clauses over the callee's logical variables are available only through "import"
+		ids := map[string]bool{}
+		ceIdents(en.Expr, ids)
+		skip := false
+		for id := range ids {
+			if ghost[id] {
+				skip = true
+			}
+		}
+		if skip {
+			continue
+		}
 		x.vc.assumeOnce(Implies(And(req...), env.evalBool(en.Expr)))
 	}
 	return res
